@@ -23,6 +23,9 @@ ScDesc ==
       [] Scenario = "fanout"   -> [funcs |-> <<MapF("f", One("a"), One("y"), One(Spec1("a", One("i"))), One("i")),
                                                MapF("g", One("y"), One("w"), One(Spec1("y", One("i"))), One("i")),
                                                PlainF("h", One("y"), One("r"))>>]
+      (* a reducer that HAS a MapSpec (over another axis) and takes y whole: axis i is reduced there too *)
+      [] Scenario = "mappedreducer" -> [funcs |-> <<MapF("f", One("a"), One("y"), One(Spec1("a", One("i"))), One("i")),
+                                                    MapF("g", <<"y", "b">>, One("w"), One(Spec1("b", One("j"))), One("j"))>>]
 ScInputs ==
     CASE Scenario = "outer"       -> <<<<"a", InArr("a", One(3))>>, <<"b", InArr("b", One(2))>>>>
       [] Scenario = "zip"         -> <<<<"a", InArr("a", One(3))>>, <<"b", InArr("b", One(3))>>>>
@@ -31,6 +34,7 @@ ScInputs ==
       [] Scenario = "multi"       -> <<<<"a", InArr("a", One(3))>>, <<"b", InArr("b", One(2))>>>>
       [] Scenario = "internalfirst" -> One(<<"a", InArr("a", One(3))>>)
       [] Scenario = "fanout"      -> One(<<"a", InArr("a", One(3))>>)
+      [] Scenario = "mappedreducer" -> <<<<"a", InArr("a", One(3))>>, <<"b", InArr("b", One(2))>>>>
 Axis == "i"
 N == 3
 
@@ -46,10 +50,10 @@ PartsAll == {<<k1>> : k1 \in {k \in NonEmpty : Sel(k) = All}}
          \cup {p \in IntKeys \X IntKeys \X IntKeys :
                   Sel(p[1]) \cap Sel(p[2]) = {} /\ Sel(p[1]) \cap Sel(p[3]) = {} /\ Sel(p[2]) \cap Sel(p[3]) = {}
                   /\ Sel(p[1]) \cup Sel(p[2]) \cup Sel(p[3]) = All}
-Parts == IF Scenario = "fanout" THEN {} ELSE PartsAll
+Parts == IF Scenario \in {"fanout", "mappedreducer"} THEN {} ELSE PartsAll
 Rejects == {<<"i", <<"int", N, 0, 0>>>>, <<"i", <<"int", -N - 1, 0, 0>>>>, <<"nope", <<"int", 0, 0, 0>>>>}
            \cup (IF Scenario = "reduceother" THEN {<<"j", <<"int", 0, 0, 0>>>>} ELSE {})
-           \cup (IF Scenario = "fanout" THEN {<<"i", <<"int", 0, 0, 0>>>>, <<"i", <<"slice", 0, 2, NoneMark>>>>} ELSE {})
+           \cup (IF Scenario \in {"fanout", "mappedreducer"} THEN {<<"i", <<"int", 0, 0, 0>>>>, <<"i", <<"slice", 0, 2, NoneMark>>>>} ELSE {})
 
 Init == case \in [kind : {"parts"}, parts : Parts, req : {<<"", <<"int", 0, 0, 0>>>>}]
                  \cup [kind : {"reject"}, parts : {<<>>}, req : Rejects]
